@@ -12,6 +12,11 @@ def run(tier):
     c.add_replay(res, "background / forced surface temperature")
     c.sample(r.behaviours[len(r.behaviours) // 2])
     n = len(set(r.behaviours))
+    ri = tlc.run("Background.tla", "Background_inter_%s.cfg" % ("thorough" if tier == "thorough" else "quick"), workers=8, timeout=1800)
+    c.add_tlc(ri, "every history of queries against three live worlds with different constants")
+    resi = replay.replay(exe, ri.behaviours, shards=16)
+    c.add_replay(resi, "interleaved worlds: each answer is the queried world's own adiabat")
+    n += len(set(ri.behaviours))
     # the outside probe of every Paint world (tier-dependent catalogue)
     beh, pres, quick = c02.paint_run(c, tier)
     pres.mismatches = [m for m in pres.mismatches if m.get("step") == 2]
@@ -20,7 +25,8 @@ def run(tier):
     c.coverage["distinct_nontrivial"] = n + len(beh)
     c.coverage["rule"] = ("all combinations of potential temperature {1600,1000,273} x expansivity {3.5e-5,0,1e-4} x specific heat x gravity "
                           "magnitude x coordinate system x forced/unforced x surface temperature x {no features, features that miss the probe, a "
-                          "covering feature}, each queried at depths {-10 km, 0, 1 m, 100 km, 2890 km} with 5 property lists; plus the outside "
+                          "covering feature}, each queried at depths {-10 km, 0, 1 m, 100 km, 2890 km} with 5 property lists; every history of 4 (quick) / 6 "
+                          "(thorough) queries at {100, 2890} km against three simultaneously live worlds with different constants; plus the outside "
                           "probe of every feature stack of Paint.tla. non-trivial: all (each has a distinct constant set or feature stack)")
     c.assumptions += ["temperature compared with relative tolerance 1e-13 against the term Tp*exp(((alpha*g)/cp)*depth) evaluated in the same operation order",
                       "other blocks compared exactly"]
